@@ -178,6 +178,24 @@ def counters(run, f):
         if ok_:
             blk = ws[0][3]
             run.require(all(cfg.dominates(blk.idx, r) for r in rets) and not cfg.in_cycle(blk.idx), "O20.3", "every-record-updates:%s" % fld, "%s is not updated on every path of record_message" % fld, "updated exactly once per record")
+    # counters start at zero: every construction of the collector initialises the three counters with Atomic::new(0)
+    inits = 0
+    for bd in f.fn_bodies():
+        if bd.name.startswith("metrics::collector::tests"):
+            continue
+        btr = tracer_of(bd)
+        for bk in bd.blocks:
+            for st in bk.stmts:
+                if st["k"] == "assign" and st["rv"].get("agg") == "adt" and st["rv"].get("adt") == MC:
+                    inits += 1
+                    for fld in ("message_count", "total_processing_nanos", "max_processing_nanos"):
+                        if fld not in st["rv"]["fields"]:
+                            continue
+                        v = strip_wrappers(btr.norm(btr.operand(st["rv"]["ops"][st["rv"]["fields"].index(fld)])))
+                        zero = v[0] == "call" and v[2].startswith("std::sync::atomic::Atomic") and v[2].endswith("::new") and strip_wrappers(btr.norm(btr.call_args(v[1])[0])) == ("int", 0)
+                        run.require(zero, "O20.3", "starts-at-zero:%s" % fld, "a new collector starts with %s = %s, not 0 (counts / durations of messages that were never handled)" % (fld, show(v)),
+                                    "%s starts at 0" % fld, loc=f.span(st["span"]).loc)
+    run.require(inits >= 1, "O20.3", "collector-construction", "no construction of MetricsCollector found", "%d construction site(s)" % inits)
     fa = [w for w in by.get("message_count", []) if w[0] == "fetch_add"]
     if fa:
         inc = const_int(fa[0][3].term["args"][1])
